@@ -19,11 +19,14 @@ let elems_opt s : e list option =
   if s = "" then Some [] else
   let parts = List.map elem_opt (String.split_on_char ',' s) in
   if List.mem None parts then None else Some (List.map Option.get parts)
-let dir_opt = function "a" -> Some false | "d" -> Some true | _ -> None   (* desc? *)
+(* the comparison function, by code (harness cmpOf / HeapqInst.ccmp) *)
+let dir_opt = function
+  | "a" -> Some 0 | "d" -> Some 1 | "A" -> Some 2 | "D" -> Some 3
+  | "m" -> Some 4 | "M" -> Some 5 | "z" -> Some 6 | "p" -> Some 7 | _ -> None
 
 type pop =
-  | PNew of bool | PNewData of bool * e list | PAdd of e | PPop | PRemove of int | PX of int
-  | PPeek of int | PFront | PSet of e list | PReorder of bool | PClear | PLen | PIsEmpty | PEach of int
+  | PNew of int | PNewData of int * e list | PAdd of e | PPop | PRemove of int | PX of int
+  | PPeek of int | PFront | PSet of e list | PReorder of int | PClear | PLen | PIsEmpty | PEach of int
   | PBad
 
 let parse_op (s : string) : pop =
@@ -64,13 +67,13 @@ let eval_with (v : M.variant) (inp : string) : string =
     if rest = "" then "?" else
     (match dir_opt (String.sub rest 0 1), elems_opt (String.sub rest 1 (String.length rest - 1)) with
      | Some d, Some l ->
-       (match M.q_sort v d (List.map me l) with
+       (match M.q_sort v (z_of_int d) (List.map me l) with
         | M.Ok r -> es_str (List.map em r)
         | M.IndexPanic -> "PANIC:index"
         | M.OutOfFuel -> "FUEL")
      | _ -> "?")
   | ("H", rest) ->
-    let q = ref (M.q_new false) in
+    let q = ref (M.q_new (z_of_int 0)) in
     let pos : (int, int) Hashtbl.t = Hashtbl.create 16 in
     let outs = ref [] in
     let stop = ref false in
@@ -78,8 +81,8 @@ let eval_with (v : M.variant) (inp : string) : string =
       if not !stop then begin
         let mop = match parse_op s with
           | PBad -> None
-          | PNew d -> Some (M.ONew (M.kcmp d))
-          | PNewData (d, l) -> Some (M.ONewWithData (M.kcmp d, List.map me l))
+          | PNew d -> Some (M.ONew (M.ccmp (z_of_int d)))
+          | PNewData (d, l) -> Some (M.ONewWithData (M.ccmp (z_of_int d), List.map me l))
           | PAdd x -> Some (M.OAdd (me x))
           | PPop -> Some M.OPop
           | PRemove n -> Some (M.ORemove (z_of_int n))
@@ -87,7 +90,7 @@ let eval_with (v : M.variant) (inp : string) : string =
           | PPeek n -> Some (M.OPeek (z_of_int n))
           | PFront -> Some M.OFront
           | PSet l -> Some (M.OSet (List.map me l))
-          | PReorder d -> Some (M.OReorder (M.kcmp d))
+          | PReorder d -> Some (M.OReorder (M.ccmp (z_of_int d)))
           | PClear -> Some M.OClear
           | PLen -> Some M.OLen
           | PIsEmpty -> Some M.OIsEmpty
@@ -123,7 +126,25 @@ let eval = eval_with M.current_variant
 exception Fail of string
 let failf fmt = Printf.ksprintf (fun s -> raise (Fail s)) fmt
 
-let kcmp desc ((a, _) : e) ((b, _) : e) = let c = compare a b in if desc then - c else c
+(* the comparison functions, written out here independently of the model (OCaml's / truncates
+   towards zero like Go's) *)
+let kcmp code ((a, pa) : e) ((b, pb) : e) =
+  match code with
+  | 0 -> compare a b
+  | 1 -> - (compare a b)
+  | 2 -> 3 * (a - b)
+  | 3 -> 7 * (b - a)
+  | 4 -> compare (a / 4) (b / 4)
+  | 5 -> (b / 4 - a / 4) * 2
+  | 6 -> 0
+  | _ -> pa - pb
+
+(* Has a trigger of known finding F1 / F2 (coq/Heapq/HeapqTriggerSpec.v, theorem
+   C05_min_since_reset) occurred since the queue was last ordered by a reset (New, NewWithData,
+   Set, Reorder, Clear, or holding at most one element)?  Computed from the implementation's own
+   layouts.  A minimality failure with neither flag set cannot be the known findings. *)
+let taint_f1 = ref false and taint_f2 = ref false
+let is_pow2 n = n > 0 && n land (n - 1) = 0
 
 let rec remove_one x = function
   | [] -> None
@@ -160,7 +181,8 @@ let check_history (prop : string) (rest : string) (out : string) : unit =
   let c05 = (prop <> "C06") and c06 = (prop = "C06") in
   let ops = String.split_on_char ';' rest in
   let outs = if out = "" then [] else String.split_on_char ';' out in
-  let held = ref [] and desc = ref false and prev = ref [] in
+  let held = ref [] and desc = ref 0 and prev = ref [] in
+  taint_f1 := false; taint_f2 := false;
   let pos : (int, int) Hashtbl.t = Hashtbl.create 16 in
   let tracked : (int, unit) Hashtbl.t = Hashtbl.create 16 in
   let take n what x =
@@ -189,6 +211,19 @@ let check_history (prop : string) (rest : string) (out : string) : unit =
         if String.length res >= 1 && res.[0] = 'v' then
           (match elem_opt (String.sub res 1 (String.length res - 1)) with Some x -> x | None -> failf "op#%d: result %s" n res)
         else failf "op#%d: result %s where a value was expected" n res in
+      (* triggers, from the layout before the op *)
+      (match p with
+       | PAdd x ->
+         let nn = len0 in
+         if not (nn <= 2 || is_pow2 (nn + 1)
+                 || (kcmp !desc (List.nth !prev (nn / 2)) x <= 0 && kcmp !desc (List.nth !prev ((nn - 1) / 2)) x <= 0))
+         then taint_f1 := true
+       | PRemove i | PX i ->
+         let i = (match p with PX pl -> Hashtbl.find pos pl | _ -> i) in
+         if i > 0 && i < len0 - 1
+            && kcmp !desc (List.nth !prev ((i - 1) / 2)) (List.nth !prev (len0 - 1)) > 0
+         then taint_f2 := true
+       | _ -> ());
       (match p with
        | PNew d -> if res <> "u" then failf "op#%d New: result %s" n res;
          held := []; desc := d; Hashtbl.reset tracked
@@ -269,12 +304,17 @@ let check_history (prop : string) (rest : string) (out : string) : unit =
           | Some j when j = i -> ()
           | Some j -> failf "op#%d: %s is at offset %d but its last reported position is %d" n (e_str x) i j
           | None -> failf "op#%d: %s is at offset %d but no position was ever reported for it" n (e_str x) i) lay;
+      (match p with
+       | PNew _ | PNewData _ | PSet _ | PReorder _ | PClear -> taint_f1 := false; taint_f2 := false
+       | _ -> ());
+      if List.length lay <= 1 then (taint_f1 := false; taint_f2 := false);
       prev := lay;
       go (n+1) ops' outs'
       end in
   go 1 ops outs
 
 let check prop inp out : string option =
+  taint_f1 := false; taint_f2 := false;
   try
     (match cut_kind inp with
      | ("S", rest) -> if prop <> "C06" then check_sort rest out
@@ -284,8 +324,11 @@ let check prop inp out : string option =
   with Fail s -> Some s
 
 (* Attribution to the known findings F1 (pushUp's parent index) and F2 (pop never sifts up): only
-   when the model with both defects reproduces the implementation's output on this very input and
-   the model with the defect repaired satisfies the property on it. *)
+   when (1) the model with both defects reproduces the implementation's output on this very input,
+   (2) a trigger of that finding has occurred, on the implementation's own layouts, since the last
+   reset (outside the triggers the pinned code is PROVED to answer minimally: C05_min_since_reset,
+   so such a failure is something new), and (3) the model with the defect repaired satisfies the
+   property on the input. *)
 let known_f1 = ref 0 and known_f2 = ref 0 and suppressed_f1 = ref 0 and suppressed_f2 = ref 0
 let () = at_exit (fun () -> Printf.printf "KNOWN-SUPPRESSED F1=%d F2=%d\n" !suppressed_f1 !suppressed_f2)
 
@@ -293,13 +336,16 @@ let spec prop inp out =
   match check prop inp out with
   | None -> None
   | Some reason ->
+    let t1 = !taint_f1 and t2 = !taint_f2 in
     if eval_with M.pinned inp <> out then Some reason
-    else if check prop inp (eval_with (M.mk_variant false true) inp) = None then begin
+    else if not (t1 || t2) then Some (reason ^ " [no F1/F2 trigger since the last reset]")
+    else if check prop inp (eval_with M.repaired inp) <> None then Some reason
+    else if t1 && (not t2 || check prop inp (eval_with (M.mk_variant false true) inp) = None) then begin
       incr known_f1;
       if !known_f1 <= 3 then Some (reason ^ " known=F1") else (incr suppressed_f1; None)
-    end else if check prop inp (eval_with M.repaired inp) = None then begin
+    end else begin
       incr known_f2;
       if !known_f2 <= 3 then Some (reason ^ " known=F2") else (incr suppressed_f2; None)
-    end else Some reason
+    end
 
 let () = run_main ~eval ~spec
